@@ -6,6 +6,7 @@ C02 — streaming round trip under any call history and buffer segmentation.
 -/
 import ZstdVerif.Lemmas.StreamSpec
 import ZstdVerif.Lemmas.DStreamRT
+import ZstdVerif.Lemmas.CStreamRT
 namespace ZstdVerif.Props.C02
 open ZstdVerif.Stream
 
@@ -63,6 +64,29 @@ theorem dstream_zero_iff_frame_end (all : List FrameD) (hok : AllOk all) (s : St
       ((s.totalIn + (step s inAvail outCap).2.consumed, s.totalOut + (step s inAvail outCap).2.produced) ∈ endsFrom 0 0 all ∧
        (0 < (step s inAvail outCap).2.consumed ∨ 0 < (step s inAvail outCap).2.produced)) :=
   DStream.zero_iff_frame_end all hok s hinv inAvail outCap hlim
+
+/-! ### compression side: the model of ZSTD_compressStream2 / ZSTD_compressStream_generic (Model/CStream.lean, tied call by call to the real code)
+
+The per-chunk compressor is an oracle (`co i` = size of what ZSTD_compressContinue / ZSTD_compressEnd returns for the i-th chunk); byte
+POSITIONS are exact: `emittedAll` = positions of the output stream handed to the caller, `chunkOutAll` = positions written by the chunk
+compressor, `chunkSrcAll` = source positions handed to it. -/
+
+open CStream in
+/-- **cstream_output_eq_chunks**: for EVERY call history `cs` (input size, output room, directive per call) from a fresh context: the bytes
+handed to the caller plus what still waits in the output buffer are exactly, in order, the concatenation of the chunk outputs; the source
+bytes handed to the chunk compressor plus what still waits in the input buffer are exactly, in order, the input consumed: nothing lost,
+duplicated or reordered, whatever the segmentation.  Composed with the per-chunk round trip this is `decode(stream) = consumed input`. -/
+theorem cstream_output_eq_chunks (co : Nat → Nat) (w m : Nat) (p : Option Nat) (cs : List (Nat × Nat × EndOp)) :
+    let r := run co (State.start w m p) cs
+    emittedAll r.2 ++ pendingOut r.1 = chunkOutAll r.2 ∧ chunkSrcAll r.2 ++ pendingIn r.1 = List.range' 0 r.1.totalIn ∧
+    emittedAll r.2 = List.range' 0 r.1.totalOut ∧ chunkOutAll r.2 = List.range' 0 r.1.outDone :=
+  CStream.output_eq_chunks co w m p cs
+
+open CStream in
+/-- the invariant behind it holds initially and is preserved by every call -/
+theorem cstream_inv (co : Nat → Nat) (w m : Nat) (p : Option Nat) (s : State) (inSize outSize : Nat) (endOp : EndOp) (h : Inv s) :
+    Inv (State.start w m p) ∧ Inv (step co s inSize outSize endOp).1 :=
+  ⟨CStream.inv_start w m p, CStream.step_inv co s inSize outSize endOp h⟩
 
 example : DLegalRun ⟨[1, 2, 3], [(9, 3)]⟩ {} [⟨4, 2, 4, [1, 2], false⟩, ⟨5, 8, 5, [3], true⟩] := by
   simp [DLegalRun, DLegal, DState.step]
